@@ -215,6 +215,9 @@ struct GenOpts {
   int incorrectPct = 26;  // share of deliberately incorrect definitions
 };
 
+// debugging aid: VERIF_PRINT_CASE=1 VERIF_VERBOSE=1 build/bin/Cxx --replay <file> prints the rendered case (crash cases keep a stale rendering)
+inline void debugShow(pbt::Ctx& c) { if (std::getenv("VERIF_PRINT_CASE")) std::cerr << "--- case\n" << c.show.str() << "\n---\n"; }
+
 inline bool rare(pbt::Ctx& c, int den) { return c.ipick(0, den - 1) == den - 1; }
 
 namespace detail {
